@@ -5,6 +5,14 @@ import json, os, subprocess
 ROOT = os.path.dirname(os.path.dirname(os.path.abspath(__file__)))
 
 CLAIMED = {
+  "C42": dict(engine="E3 disksim", level="exploration", design="§4 C42, Appendix B",
+      technique="deterministic simulation of a writer model of cardano-node's ImmutableDB interleaved with the real reader; single-copy-log reference model",
+      text="Per run a seeded database is written into a tmpfs directory by a model of the node's append path (real blocks, seeded chunk boundaries, empty slots, chunk numbers); reader operations run while the writer appends / finalises / opens chunks between reader steps; results are compared with a single-copy log of the immutable chunks at listing time (full read, tip, exact / fuzzy / absent points, Origin).",
+      note="Block metadata of the model comes from MultiEraBlock::decode. No genesis-rooted fixture exists, so the Origin success path is exercised only for its error outcome. Known findings: slot-only point before the first block; empty immutable chunk files."),
+  "C43": dict(engine="E3 disksim", level="fault_enumeration", design="§4 C43",
+      technique="deterministic fault injection on the simulated disk state (torn/short/lost/zero-length files, garbled offsets, bit flips) with crash-supervised child process and address-space limit",
+      text="Seeded databases receive truncations at seeded byte offsets (sweep batch: one truncation per run), lost and zero-length files, garbled primary/secondary offsets and bit flips; all reader operations then run and every yielded block is decoded. Oracle: no panic, no process abort (the check runs in a supervised child under RLIMIT_AS, aborts are attributed to the run via per-worker breadcrumbs), bounded output.",
+      note="Faults are state faults on files; syscall-level errors (EIO/EINTR/short reads on std::fs::File) cannot be injected without rewriting the reader."),
   "C21": dict(engine="E1 netsim1", level="fault_enumeration", design="§4 C21",
       technique="deterministic simulation: simulated sender cutting message streams at seeded/enumerated split points and interleaving protocols, real demuxer and reassembly on a seeded pipe (short reads, stalls, delays)",
       text="For every protocol/message variant of both stacks a simulated sender cuts the concatenated encodings at split points (all cut masks sampled for streams <= 12 bytes; all-1-byte, every single offset, message-boundary and near-boundary, dense and random cut sets otherwise), interleaves other protocols' segments and feeds the real reassembly code; the messages yielded must equal those sent, in order, with no error and no left-over (sentinel / empty partial map).",
@@ -43,7 +51,7 @@ CLAIMED = {
       note="Trusts blake2b/ed25519 of pallas-crypto (used on both sides) and the hand-written strict CBOR walker. Single actor; no scheduler/clock/transport."),
 }
 
-PENDING = {k: 'claimed in DESIGN.md; check under construction (not yet registered)' for k in 'C09 C12 C13 C23 C26 C39 C40 C42 C43'.split()}  # id -> reason while a claimed check is still being built
+PENDING = {k: 'claimed in DESIGN.md; check under construction (not yet registered)' for k in 'C09 C12 C13 C23 C26 C39 C40'.split()}  # id -> reason while a claimed check is still being built
 
 NA = {
  "C01": "Flat encoder/decoder are in-memory functions of a value sequence; bit alignment depends on the values written, not on any schedule, stream, clock or fault.",
